@@ -241,3 +241,53 @@ func genC17(rec *lib.Rec, r *lib.Rng, thorough bool) {
 	}
 	_ = strconv.Itoa
 }
+
+// stripCaps replaces capabilities by nulls (Canonicalize rejects them) except with small probability.
+func stripCaps(r *lib.Rng, v *Val) {
+	var all []*Val
+	nodes(v, &all)
+	keep := r.Chance(1, 12)
+	for _, n := range all {
+		if n.Kind == vCap && !keep {
+			n.Kind = vNull
+		}
+	}
+}
+
+// dirtyBitPadding sets the unused bits of bit lists' last bytes (they are not part of the value).
+func dirtyBitPadding(r *lib.Rng, v *Val) *Val {
+	c := clone(v)
+	var all []*Val
+	nodes(c, &all)
+	for _, n := range all {
+		if n.Kind == vList && n.EK == 1 && n.N%8 != 0 && len(n.Prim) > 0 {
+			n.Prim[len(n.Prim)-1] |= byte(0xff) << uint(n.N%8)
+		}
+	}
+	return c
+}
+
+func genC18(rec *lib.Rec, r *lib.Rng, thorough bool) {
+	n := 2500
+	if thorough {
+		n = 150000
+	}
+	n /= Shards
+	for i := 0; i < n; i++ {
+		b := 3 + r.Intn(30)
+		v := genStruct(r, 5, &b, r.Intn(4), r.Intn(4))
+		stripCaps(r, v)
+		a := segsStr(encodeRandom(r, v))
+		// S: Canonicalize == the spec's canonical bytes of the decoded tree (and idempotent)
+		ca := rec.Op("S", "read canon "+a, true)
+		// layout independence: other layout, other schema version, dirty bit-list padding
+		cb := rec.Op("S", "read canon "+segsStr(encodeRandom(r, v)), true)
+		cw := rec.Op("S", "read canon "+segsStr(encodeRandom(r, relayout(r, v))), true)
+		cd := rec.Op("S", "read canon "+segsStr(encodeRandom(r, dirtyBitPadding(r, v))), true)
+		if ca != cb || ca != cw || ca != cd {
+			rec.Count("layout-dependent")
+			rec.Op("S", "read canonsame "+a, true) // records the failing input; the model answers "same"
+		}
+		rec.Count("value")
+	}
+}
